@@ -132,8 +132,10 @@ class QModuleMixin(ABC):
                     self.weight_group_size = group_size
         self.activation_qtype = activations
         self.optimizer = optimizer
-        self.register_buffer("input_scale", torch.ones(()))
-        self.register_buffer("output_scale", torch.ones(()))
+        # The scales must have the dtype (and device) of the module, like its other floating point tensors
+        scale_kwargs = {k: v for k, v in kwargs.items() if k in ("dtype", "device")}
+        self.register_buffer("input_scale", torch.ones((), **scale_kwargs))
+        self.register_buffer("output_scale", torch.ones((), **scale_kwargs))
 
     def _save_to_state_dict(self, destination, prefix, keep_vars):
         if self.weight_qtype is None or not self.frozen:
